@@ -1,5 +1,5 @@
 (** * C17 -- feeding a program in pieces *)
-From QV Require Import Interp Sym C17T C17T2 C17T3 C17T4.
+From QV Require Import Interp Sym C17T C17T2 C17T3 C17T4 C17T5.
 
 Theorem C17_record : C17_record_stmt.
 Proof. exact C17_record_proof. Qed.
@@ -24,3 +24,11 @@ Print Assumptions C17_rerun.
 Theorem C17_pieces : C17_pieces_stmt.
 Proof. exact C17_pieces_proof. Qed.
 Print Assumptions C17_pieces.
+
+Theorem C17_reuse : C17_reuse_stmt.
+Proof. exact C17_reuse_proof. Qed.
+Print Assumptions C17_reuse.
+
+Theorem C17_reuse_unsound : C17_reuse_unsound_stmt.
+Proof. exact C17_reuse_unsound_proof. Qed.
+Print Assumptions C17_reuse_unsound.
